@@ -115,6 +115,16 @@ GENE_MENU = [
 ]
 
 
+def _taken_name():
+    """the name the second 'x' gene of the menu is renamed to when it overlaps the first: 'x_<checksum of its location>'"""
+    from antismash.common.secmet.record import _location_checksum  # pylint: disable=import-outside-toplevel
+    return f"x_{_location_checksum(CDSFeature(F(6, 15, 1), 'MKK', locus_tag='x'))}"
+
+
+# a gene that already carries the name a splice variant would be renamed to
+GENE_MENU.append((_taken_name(), _taken_name(), (40, 49)))
+
+
 def check_genes(triple):
     rec = Record(Seq("A" * 60))
     rec.id = rec.name = "rec"
@@ -147,8 +157,37 @@ def check_genes(triple):
     return fails, renamed, rejected
 
 
+MANY_SIZES = (9, 11, 99, 101, 999, 1001, 1002, 1100)   # around the places where the counter of a generated id grows a digit
+
+
+def many_ids(template, n):
+    """n ids that all compete for the same generated name"""
+    if template == "bins":
+        # long ids sharing their first 12 characters and the same contig number: the shortened form is taken from the second on
+        return [f"metagenome_bin{i:04d}.contig1" for i in range(n)]
+    if template == "repeats":
+        return ["abcdefghijklmn"] * n
+    if template == "cleaned":
+        # distinct ids that all lose their illegal characters to the same 13 characters
+        base = "abcdefghijklm"
+        out = [base]
+        for chars in (":", ";", "::", ":;", ";:", ";;", ":::", "=", "=:", ":=", "==", "?", "?:", ":?", "??", "=?", "?="):
+            for pos in range(len(base) + 1):
+                out.append(base[:pos] + chars + base[pos:])
+            for pos in range(len(base)):
+                for pos2 in range(pos + 1, len(base) + 1):
+                    out.append(base[:pos] + chars[0] + base[pos:pos2] + chars[-1] + base[pos2:])
+        out = list(dict.fromkeys(out))
+        assert len(out) >= n, len(out)
+        return out[:n]
+    raise ValueError(template)
+
+
 def shards(tier):
     out = []
+    for template in ("bins", "repeats", "cleaned"):
+        for long_headers in (False, True):
+            out.append(["many", template, long_headers])
     for long_headers in (False, True):
         for chunk in range(N_CHUNKS):
             out.append(["ids", "quick" if tier == "quick" else "full", 3, long_headers, chunk])
@@ -207,6 +246,18 @@ def run_shard(shard):
                 for clause, detail in fails:
                     res.fail(case, clause, detail)
                 res.sample(case)
+    elif shard[0] == "many":
+        _, template, long_headers = shard
+        for n in MANY_SIZES:
+            res.evals += 1
+            res.nontrivial += 1
+            fails, _ = check_ids(many_ids(template, n), long_headers)
+            res.buckets["ids:many-competing"] += 1
+            res.outcomes[("many", template, long_headers, tuple(sorted({c for c, _ in fails})))] += 1
+            case = {"kind": "many", "template": template, "n": n, "long": long_headers}
+            for clause, detail in fails:
+                res.fail(case, clause, detail[:300])
+            res.sample(case)
     else:
         for triple in itertools.permutations(range(len(GENE_MENU)), 3):
             res.evals += 1
@@ -226,4 +277,6 @@ def run_shard(shard):
 def replay(case):
     if case["kind"] == "ids":
         return check_ids(case["ids"], case["long"])[0]
+    if case["kind"] == "many":
+        return check_ids(many_ids(case["template"], case["n"]), case["long"])[0]
     return check_genes([GENE_MENU[i] for i in case["triple"]])[0]
